@@ -40,6 +40,20 @@ POS = {
     "AsyncFor.orelse": "async def h3():\n    async for i in X:\n        pass\n    else:\n{S2}\n",
     "AsyncWith.body": "async def h2():\n    async with X as y:\n{S2}\n",
 }
+# one-line forms: the import is not the first token of its physical line
+INLINE = {
+    "If.body(inline)": "if X: {SL}\n",
+    "Try.body(inline)": "try: {SL}\nexcept E: pass\n",
+    "Try.handler(inline)": "try: pass\nexcept E: {SL}\n",
+    "FunctionDef.body(inline)": "def f1(): {SL}\n",
+    "ClassDef.body(inline)": "class K1: {SL}\n",
+    "For.body(inline)": "for i in X: {SL}\n",
+    "While.orelse(inline)": "while X: pass\nelse: {SL}\n",
+    "With.body(inline)": "with X as y: {SL}\n",
+    "Semicolon": "X = 1; {SL}\n",
+    "Semicolon2": "pass; {SL}; pass\n",
+}
+POS.update(INLINE)
 POS_NAMES = list(POS)
 
 
@@ -47,6 +61,13 @@ def place(stmt: str, chain) -> str:
     code = stmt
     for pos in reversed(chain):
         t = POS[pos]
+        if "{SL}" in t:
+            one = code.rstrip("\n")
+            if "\n" in one or not (one.startswith("import ") or one.startswith("from ")):   # only a simple statement fits inline
+                t = "if X:\n{S1}\n"
+            else:
+                code = t.replace("{SL}", one)
+                continue
         if "{S2}" in t:
             code = t.replace("{S2}", textwrap.indent(code.rstrip("\n"), "        "))
         elif "{S1}" in t:
